@@ -142,14 +142,69 @@ struct Job {
     binary: bool,
     /// second operands of the Sum/Product folds (C11 mode): the first values of the layout's unary domain
     partners: Vec<u128>,
+    /// related pairs: (first operand, its own list of second operands); used instead of `a` x `b` when non-empty
+    rel: Vec<(u128, std::sync::Arc<Vec<u128>>)>,
 }
 
 struct Domain {
     un: Vec<u128>,
     /// (first operands, second operands) products
     bin: Vec<(Vec<u128>, std::sync::Arc<Vec<u128>>)>,
+    /// related pairs (exact multiples and their neighbours), see `related_pairs`
+    rel: Vec<(u128, std::sync::Arc<Vec<u128>>)>,
     complete_un: bool,
     complete_bin: bool,
+}
+
+/// Operand pairs that the square B x B cannot contain because the two operands are *related*: for every y of the
+/// boundary alphabet and every small factor k, the exact multiple k*y (where it fits the layout) and its two
+/// neighbours, paired with y in both orders. These are the pairs with an exactly representable integer quotient
+/// (remainder zero, or one unit either side of it): the equality cases of every quotient-digit correction and
+/// remainder comparison in the division code, and of the Euclidean / remainder sign logic.
+fn related_pairs(l: Layout, ys: &[u128]) -> Vec<(u128, std::sync::Arc<Vec<u128>>)> {
+    use std::collections::BTreeMap;
+    use std::sync::Arc;
+    let m = vcore::lay::mask(l.w);
+    let ks: [i128; 12] = [2, 3, 5, 7, 10, 11, 255, 65537, -1, -2, -3, -11];
+    let mut map: BTreeMap<u128, Vec<u128>> = BTreeMap::new();
+    let mut order: Vec<u128> = vec![];
+    let mut put = |a: u128, b: u128, map: &mut BTreeMap<u128, Vec<u128>>, order: &mut Vec<u128>| {
+        let e = map.entry(a).or_insert_with(|| {
+            order.push(a);
+            vec![]
+        });
+        if !e.contains(&b) {
+            e.push(b);
+        }
+    };
+    for &y in ys {
+        if y == 0 {
+            continue;
+        }
+        // the value of y as a (sign, magnitude) pair
+        let neg = l.signed && (y >> (l.w - 1)) & 1 == 1;
+        let mag: u128 = if neg { y.wrapping_neg() & m } else { y };
+        for &k in &ks {
+            if k < 0 && !l.signed {
+                continue;
+            }
+            let Some(pm) = mag.checked_mul(k.unsigned_abs()) else { continue };
+            let pneg = neg != (k < 0);
+            // fits? signed: magnitude <= 2^(w-1) - 1 (or exactly 2^(w-1) when negative); unsigned: <= mask
+            let lim = if l.signed { (1u128 << (l.w - 1)) - 1 + pneg as u128 } else { m };
+            if pm > lim {
+                continue;
+            }
+            let p = if pneg { pm.wrapping_neg() & m } else { pm };
+            for d in [0u128, 1, m] {
+                // p, p + 1, p - 1 (wrapping inside the width; a wrapped neighbour is just another operand)
+                let a = p.wrapping_add(d) & m;
+                put(a, y, &mut map, &mut order);
+                put(y, a, &mut map, &mut order);
+            }
+        }
+    }
+    order.into_iter().map(|a| (a, Arc::new(map.remove(&a).unwrap()))).collect()
 }
 
 /// `c11`: the profile-independence pass executes every case twice (and every permitted overflow costs a caught
@@ -163,7 +218,7 @@ fn domain(l: Layout, tier: Tier, c11: bool) -> Domain {
     match l.w {
         8 => {
             let v = alpha::all_values(8);
-            Domain { un: v.clone(), bin: vec![(v.clone(), Arc::new(v))], complete_un: true, complete_bin: true }
+            Domain { un: v.clone(), bin: vec![(v.clone(), Arc::new(v))], rel: vec![], complete_un: true, complete_bin: true }
         }
         16 => {
             let v = alpha::all_values(16);
@@ -180,7 +235,8 @@ fn domain(l: Layout, tier: Tier, c11: bool) -> Domain {
                     vec![(v.clone(), Arc::new(b.clone())), (b, Arc::new(rest))]
                 }
             };
-            Domain { un: v, bin, complete_un: true, complete_bin: false }
+            let rel = related_pairs(l, &alpha::boundary(l, Tier::Quick));
+            Domain { un: v, bin, rel, complete_un: true, complete_bin: false }
         }
         _ => {
             let b = alpha::boundary(l, btier);
@@ -191,7 +247,8 @@ fn domain(l: Layout, tier: Tier, c11: bool) -> Domain {
                     un.push(x);
                 }
             }
-            Domain { un, bin: vec![(b.clone(), Arc::new(b))], complete_un: false, complete_bin: false }
+            let rel = related_pairs(l, &b);
+            Domain { un, bin: vec![(b.clone(), Arc::new(b))], rel, complete_un: false, complete_bin: false }
         }
     }
 }
@@ -228,7 +285,8 @@ fn run_job(tab: &[Entry], job: &Job, prop: Prop, tier: Tier) -> JobOut {
     let mut nontrivial = 0u64;
     let mut transitions = 0u64;
     let mut judged = 0u64;
-    for &a in &job.a {
+    let items: Vec<(u128, &[u128])> = if job.rel.is_empty() { job.a.iter().map(|&a| (a, &job.b[..])).collect() } else { job.rel.iter().map(|(a, bs)| (*a, &bs[..])).collect() };
+    for (a, bs) in items {
         if job.unary && sel_un.iter().any(|&x| x) {
             states += 1;
             let mut any = false;
@@ -324,7 +382,7 @@ fn run_job(tab: &[Entry], job: &Job, prop: Prop, tier: Tier) -> JobOut {
             }
         }
         if job.binary && sel_bin.iter().any(|&x| x) {
-            for &b in job.b.iter() {
+            for &b in bs.iter() {
                 states += 1;
                 let mut any = false;
                 let mut cache: Option<(&str, Exact)> = None;
@@ -419,14 +477,17 @@ fn build_jobs(tab: &[Entry], tier: Tier, only: Option<&str>, c11: bool) -> (Vec<
         let empty = std::sync::Arc::new(vec![]);
         // unary: chunks of 8192 first operands
         for ch in d.un.chunks(8192) {
-            jobs.push(Job { ei, a: ch.to_vec(), b: empty.clone(), unary: true, binary: false, partners: d.un.iter().cloned().take(6).collect() });
+            jobs.push(Job { ei, a: ch.to_vec(), b: empty.clone(), unary: true, binary: false, partners: d.un.iter().cloned().take(6).collect(), rel: vec![] });
         }
         for (av, bv) in &d.bin {
             // aim at <= 2^16 pairs per job
             let per = (65536 / bv.len().max(1)).max(1);
             for ch in av.chunks(per) {
-                jobs.push(Job { ei, a: ch.to_vec(), b: bv.clone(), unary: false, binary: true, partners: vec![] });
+                jobs.push(Job { ei, a: ch.to_vec(), b: bv.clone(), unary: false, binary: true, partners: vec![], rel: vec![] });
             }
+        }
+        for ch in d.rel.chunks(4096) {
+            jobs.push(Job { ei, a: vec![], b: empty.clone(), unary: false, binary: true, partners: vec![], rel: ch.to_vec() });
         }
     }
     notes.push(format!("{} layouts with all operand pairs enumerated (8-bit); {} layouts with all single operands enumerated (8/16-bit)", complete8, complete16));
@@ -666,8 +727,9 @@ fn cmd_dump(args: &Args) {
             writeln!(o, "{}\t{}", case_un(l, op, a), got).unwrap();
         }
     } else {
-        for (av, bv) in &d.bin {
-            for &a in av {
+        let prods = d.bin.iter().flat_map(|(av, bv)| av.iter().map(move |&a| (a, bv.clone())));
+        for (a, bv) in prods.chain(d.rel.iter().map(|(a, bs)| (*a, bs.clone()))) {
+            {
                 for &b in bv.iter() {
                     let ex = exact_bin(l, op.base, a, b);
                     if expect(l, op.form, &ex, false).is_none() || (op.form == Form::Plain && classify_kf(l, op, a, b, &ex).is_some()) {
